@@ -1064,6 +1064,84 @@ func TestGocvReplay(t *testing.T) {
 	}
 }
 `}
+	replayers["scenario:C12-signer"] = &Replayer{PkgDir: "kmipclient", Oracle: "a scripted server describes a key pair with every combination of announced algorithm (RSA, EC, ECDSA) and actual public key material (RSA, ECDSA P-256) and returns signatures of several lengths: Client.Signer and the signer's Sign return a value or an error, never panic",
+		Template: `package kmipclient
+
+import (
+	"context"
+	"crypto"
+	"crypto/ecdsa"
+	"crypto/elliptic"
+	"crypto/rand"
+	"crypto/rsa"
+	"crypto/x509"
+	"fmt"
+	"testing"
+
+	"github.com/ovh/kmip-go"
+	"github.com/ovh/kmip-go/payloads"
+)
+
+func TestGocvReplay(t *testing.T) {
+	rk, _ := rsa.GenerateKey(rand.Reader, 1024)
+	ek, _ := ecdsa.GenerateKey(elliptic.P256(), rand.Reader)
+	rder, _ := x509.MarshalPKIXPublicKey(&rk.PublicKey)
+	eder, _ := x509.MarshalPKIXPublicKey(&ek.PublicKey)
+	pubObj := func(der []byte, alg kmip.CryptographicAlgorithm) *kmip.PublicKey {
+		return &kmip.PublicKey{KeyBlock: kmip.KeyBlock{KeyFormatType: kmip.KeyFormatTypeX_509, KeyValue: &kmip.KeyValue{Plain: &kmip.PlainKeyValue{KeyMaterial: kmip.KeyMaterial{Bytes: &der}}}, CryptographicAlgorithm: alg}}
+	}
+	for _, alg := range []kmip.CryptographicAlgorithm{kmip.CryptographicAlgorithmRSA, kmip.CryptographicAlgorithmEC, kmip.CryptographicAlgorithmECDSA} {
+		for keyKind, der := range map[string][]byte{"rsa": rder, "ecdsa": eder} {
+			for _, siglen := range []int{0, 64, 71, 128} {
+				desc := fmt.Sprintf("announced algorithm %d, public key material %s, signature of %d bytes", alg, keyKind, siglen)
+				v := kmip.V1_4
+				c := &Client{supportedVersions: []kmip.ProtocolVersion{kmip.V1_4}, version: &v}
+				c.middlewares = []Middleware{func(next Next, ctx context.Context, msg *kmip.RequestMessage) (*kmip.ResponseMessage, error) {
+					resp := &kmip.ResponseMessage{Header: kmip.ResponseHeader{BatchCount: 1}}
+					for _, bi := range msg.BatchItem {
+						item := kmip.ResponseBatchItem{Operation: bi.Operation, ResultStatus: kmip.ResultStatusSuccess}
+						switch req := bi.RequestPayload.(type) {
+						case *payloads.GetAttributesRequestPayload:
+							ot, mask, link := kmip.ObjectTypePrivateKey, kmip.CryptographicUsageSign, kmip.Link{LinkType: kmip.LinkTypePublicKeyLink, LinkedObjectIdentifier: "pub"}
+							if req.UniqueIdentifier == "pub" {
+								ot, mask, link = kmip.ObjectTypePublicKey, kmip.CryptographicUsageVerify, kmip.Link{LinkType: kmip.LinkTypePrivateKeyLink, LinkedObjectIdentifier: "priv"}
+							}
+							item.ResponsePayload = &payloads.GetAttributesResponsePayload{UniqueIdentifier: req.UniqueIdentifier, Attribute: []kmip.Attribute{
+								{AttributeName: kmip.AttributeNameObjectType, AttributeValue: ot},
+								{AttributeName: kmip.AttributeNameCryptographicAlgorithm, AttributeValue: alg},
+								{AttributeName: kmip.AttributeNameLink, AttributeValue: link},
+								{AttributeName: kmip.AttributeNameCryptographicUsageMask, AttributeValue: mask},
+							}}
+						case *payloads.GetRequestPayload:
+							item.ResponsePayload = &payloads.GetResponsePayload{ObjectType: kmip.ObjectTypePublicKey, UniqueIdentifier: "pub", Object: pubObj(der, alg)}
+						case *payloads.SignRequestPayload:
+							item.ResponsePayload = &payloads.SignResponsePayload{UniqueIdentifier: "priv", SignatureData: make([]byte, siglen)}
+						default:
+							item.ResultStatus = kmip.ResultStatusOperationFailed
+						}
+						resp.BatchItem = append(resp.BatchItem, item)
+					}
+					return resp, nil
+				}}
+				func() {
+					defer func() {
+						if p := recover(); p != nil {
+							t.Fatalf("GOCV-REPRODUCED: {{.Obligation}}: signer panicked on well-formed server responses (%s): %v", desc, p)
+						}
+					}()
+					signer, err := c.Signer(context.Background(), "priv", "")
+					if err != nil {
+						return
+					}
+					digest := make([]byte, 32)
+					_, _ = signer.Sign(rand.Reader, digest, crypto.SHA256)
+				}()
+			}
+		}
+	}
+}
+`}
+	replayers["(*kmipclient.cryptoSigner).Sign"] = replayers["scenario:C12-signer"]
 	replayers["prefix:(kmipclient.Executor["] = replayers["scenario:C12"]
 	replayers["(*kmipclient.Client).Request"] = replayers["scenario:C12"]
 	replayers["(*kmipclient.Client).BatchOpt"] = replayers["scenario:C12"]
